@@ -154,6 +154,25 @@ Theorem C16_callback_event_under_key_at_start : forall c e t,
 Proof. exact cb_accepted_ewi. Qed.
 Print Assumptions C16_callback_event_under_key_at_start.
 
+(* a rotation payload whose accessors start events on the same filter: the check accepts it exactly when the payload was consumed,
+   every such event is an execution of the model in the state before the rotation or in the state after it (a plain event value
+   by value: each value under the old or the new filter triple; an event with wrapper info wholly under one of the two keys in
+   force) - never a state in between - and the next event is under the rotated state *)
+Theorem C16_rotation_payload_verdict : forall c, rp_mm c = [] <-> RunCryptoSound.rp_accepted c.
+Proof. exact rp_mm_iff. Qed.
+Print Assumptions C16_rotation_payload_verdict.
+
+(* an event whose values carry their own class tags, under an override table that does not switch everything off: it is the
+   model's event over exactly the values whose tag resolves (Tag.v) to encrypt / hmac-sha256, and when those are attributed to a
+   triple, every value of the event came out as its resolved action says under THAT triple *)
+Theorem C16_tagged_event : forall ov ewi fs r, Tag.all_none ov = false -> fst (tstep ov ewi fs r) = OEvent N ewi (crypto_vals ov fs).
+Proof. exact tstep_event. Qed.
+Theorem C16_tagged_event_values : forall ov t fs os,
+  Forall2 (fun v o => value_ok t (fst v) o) (crypto_vals ov fs) (crypto_obs ov fs os) ->
+  Forall2 (fun f o => tobs_ok t (tact ov f) o) fs os.
+Proof. exact crypto_obs_ok. Qed.
+Print Assumptions C16_tagged_event_values.
+
 (* non-vacuity: a history with an event before rotation, Rotate, an event with per-event info (salt from the filter, info
    its own), a rotation payload, an event after it, and an event with an empty event id *)
 Theorem C16_nonvacuous :
@@ -177,7 +196,8 @@ Proof. exact roundtrip_instance. Qed.
    equal triples gave equal digests, the values produced under concurrent rotation each come from one rotation, every event
    rotated from its own callback is accepted (RunCryptoSound.cb_accepted: its values before the rotation under the triple its
    options select in the state it started in, those after it under the triple the SAME options select in the rotated state),
-   and the caller's salt / info slices kept their bytes.  (Identities are interned by the harness, which folds what the cryptography
+   every rotation payload with side-effecting accessors is accepted (RunCryptoSound.rp_accepted), and the caller's salt / info
+   slices kept their bytes.  (Identities are interned by the harness, which folds what the cryptography
    cannot tell apart: nil = empty salt / info, trailing NUL bytes of an HKDF salt and of an event id.) *)
 Theorem C16_verdict_is_model_execution : forall cs, Run_Crypto.mismatches cs = [] <-> Forall RunCryptoSound.case_accepted cs.
 Proof. exact RunCryptoSound.mismatches_nil_iff. Qed.
